@@ -14,8 +14,8 @@
 #include "mx.h"
 #include "certgen.h"
 
-enum { L_GOOD = 0, L_EXPIRED_LEAF, L_NOTYET_LEAF, L_UNTRUSTED, L_SIG_CORRUPT, L_WRONG_NAME, L_ISSUER_NOT_CA, L_UNKNOWN_CRIT, L_EXPIRED_INT, L_SELF_SIGNED, L_WRONG_KEY, L_ANCHOR_PATHLEN, L_INT_PATHLEN, L_N };
-static const char *lname[] = { "good", "expired-leaf", "not-yet-valid-leaf", "untrusted-ca", "signature-corrupt", "wrong-expected-name", "issuer-not-ca", "unknown-critical-extension", "expired-intermediate", "self-signed-unanchored", "wrong-key-proof-of-possession", "anchor-pathlen-exceeded", "intermediate-pathlen-exceeded" };
+enum { L_GOOD = 0, L_EXPIRED_LEAF, L_NOTYET_LEAF, L_UNTRUSTED, L_SIG_CORRUPT, L_WRONG_NAME, L_ISSUER_NOT_CA, L_UNKNOWN_CRIT, L_EXPIRED_INT, L_SELF_SIGNED, L_WRONG_KEY, L_ANCHOR_PATHLEN, L_INT_PATHLEN, L_NO_TRUST, L_N };
+static const char *lname[] = { "good", "expired-leaf", "not-yet-valid-leaf", "untrusted-ca", "signature-corrupt", "wrong-expected-name", "issuer-not-ca", "unknown-critical-extension", "expired-intermediate", "self-signed-unanchored", "wrong-key-proof-of-possession", "anchor-pathlen-exceeded", "intermediate-pathlen-exceeded", "verifier-has-no-trust-anchors" };
 enum { CB_NONE = 0, CB_STRICT, CB_PERMISSIVE };
 static const char *cbname[] = { "no-callback", "strict-callback", "permissive-callback" };
 typedef struct { const char *name; int ver; uint16_t suite; int leafType; int verifierIsServer; } scn_t;
@@ -38,7 +38,7 @@ typedef struct { char *chainPem, *keyPem, *caPem; const char *expected; } cred_t
 static void append(char **dst, char *src) { size_t a = *dst ? strlen(*dst) : 0, b = strlen(src); *dst = realloc(*dst, a + b + 1); memcpy(*dst + a, src, b + 1); free(src); }
 
 /* mint the peer's credentials for one label; returns 0 on success */
-static int mint(const scn_t *s, int label, cred_t *out)
+static int mint(const scn_t *s, int label, int viaInt, cred_t *out)
 {
     long now = mx_now; memset(out, 0, sizeof *out);
     int rootType = s->leafType == CG_K_ED25519 ? CG_K_P256 : (s->leafType == CG_K_P256 ? CG_K_P256 : CG_K_RSA2048);
@@ -51,7 +51,7 @@ static int mint(const scn_t *s, int label, cred_t *out)
     cg_spec_ca(&root, "Verif C04", "c04 root", rootK, NULL, NULL, now, label == L_ANCHOR_PATHLEN ? 0 : -1);
     cg_spec_ca(&oroot, "Verif C04", "c04 other root", otherRootK, NULL, NULL, now, -1);
     int useInt2 = label == L_INT_PATHLEN;
-    int useInt = label == L_ISSUER_NOT_CA || label == L_EXPIRED_INT || label == L_ANCHOR_PATHLEN || label == L_INT_PATHLEN || (label == L_GOOD && (s->suite & 1));
+    int useInt = label == L_ISSUER_NOT_CA || label == L_EXPIRED_INT || label == L_ANCHOR_PATHLEN || label == L_INT_PATHLEN || viaInt;
     if (useInt) {
         cg_spec_ca(&inter, "Verif C04", "c04 intermediate", intK, &root, rootK, now, label == L_INT_PATHLEN ? 0 : -1);
         if (useInt2) cg_spec_ca(&inter2, "Verif C04", "c04 second intermediate", int2K, &inter, intK, now, -1);
@@ -67,6 +67,7 @@ static int mint(const scn_t *s, int label, cred_t *out)
     case L_NOTYET_LEAF: leaf.not_before = now + 10L * 86400; leaf.not_after = now + 400L * 86400; break;
     case L_SIG_CORRUPT: leaf.sigmode = CG_SM_FLIP; leaf.flip_bit = 77; break;
     case L_UNKNOWN_CRIT: leaf.unk = 2; break;
+    case L_NO_TRUST:
     case L_SELF_SIGNED: leaf.issuer = leaf.subject; leaf.signer = leafK; leaf.aki = 0; break;
     default: break; }
     if (cg_make_cert(&root, &rc) || cg_make_cert(&oroot, &oc) || cg_make_cert(&leaf, &lc) || (useInt && cg_make_cert(&inter, &ic)) || (useInt2 && cg_make_cert(&inter2, &i2c))) return -1;
@@ -80,12 +81,12 @@ static int mint(const scn_t *s, int label, cred_t *out)
     return 0;
 }
 
-typedef struct { const scn_t *s; int label, cb; } case_t;
+typedef struct { const scn_t *s; int label, cb, viaInt; } case_t;
 static char cur_desc[200];
 static void report(const case_t *c, const char *clause, const char *fmt, ...)
 {
     char key[200], msg[600]; va_list ap; va_start(ap, fmt); vsnprintf(msg, sizeof msg, fmt, ap); va_end(ap);
-    snprintf(key, sizeof key, "c04:%s:%s:%s:%s:%s", clause, mx_vername[c->s->ver], c->s->verifierIsServer ? "server-verifies-client" : "client-verifies-server", lname[c->label], cbname[c->cb]);
+    snprintf(key, sizeof key, "c04:%s:%s:%s:%s%s:%s", clause, mx_vername[c->s->ver], c->s->verifierIsServer ? "server-verifies-client" : "client-verifies-server", lname[c->label], c->viaInt ? "+intermediate-sent" : "", cbname[c->cb]);
     vf_violation(key, cur_desc, "%s | scenario=%s suite=%04x", msg, c->s->name, c->s->suite);
 }
 
@@ -93,7 +94,7 @@ static void run_case(void *a_)
 {
     case_t *c = a_; const scn_t *s = c->s; cred_t cr;
     vf_stat("cases", 1);
-    if (mint(s, c->label, &cr) != 0) { vf_incon("minting credentials failed (%s %s)", s->name, lname[c->label]); return; }
+    if (mint(s, c->label, c->viaInt, &cr) != 0) { vf_incon("minting credentials failed (%s %s)", s->name, lname[c->label]); return; }
     /* peer (prover) key set: identity = minted chain + key; verifier key set: trust = minted root (or the other root) */
     sslKeys_t *pk = NULL, *vk = NULL; int rc;
     const char *ownCert = s->leafType == CG_K_P256 || s->leafType == CG_K_ED25519 ? MX_TK "EC/256_EC.pem" : MX_TK "RSA/2048_RSA.pem";
@@ -108,7 +109,7 @@ static void run_case(void *a_)
     if (rc < 0) { if (c->label == L_GOOD) vf_violation("c04:harness:good-credentials-do-not-load", cur_desc, "matrixSslLoadKeysMem rc=%d", rc); else vf_statf(1, "refused_at_load_%s", lname[c->label]); goto out; }
     MX_ENTER();
     if (s->verifierIsServer) rc = matrixSslLoadKeys(vk, ownCert, ownKey, NULL, NULL, NULL);        /* server identity from the sample credentials */
-    if (rc >= 0) rc = matrixSslLoadKeysMem(vk, NULL, 0, NULL, 0, (unsigned char *) cr.caPem, (int32) strlen(cr.caPem), NULL);
+    if (rc >= 0 && c->label != L_NO_TRUST) rc = matrixSslLoadKeysMem(vk, NULL, 0, NULL, 0, (unsigned char *) cr.caPem, (int32) strlen(cr.caPem), NULL);
     MX_LEAVE();
     if (rc < 0) { vf_incon("verifier key set failed to load rc=%d", rc); goto out; }
     {
@@ -130,7 +131,7 @@ static void run_case(void *a_)
         mx_ep *V = s->verifierIsServer ? &k.s : &k.c;
         int vdone = (V->hsDone || matrixSslHandshakeIsComplete(V->ssl));
         int both = mx_conn_established(&k);
-        vf_distinct("%s|%s|%d|%s|%s", mx_vername[s->ver], s->name, s->verifierIsServer, lname[c->label], cbname[c->cb]);
+        vf_distinct("%s|%s|%d|%s|%s|%d", mx_vername[s->ver], s->name, s->verifierIsServer, lname[c->label], cbname[c->cb], c->viaInt);
         vf_statf(1, "outcome_%s_%s", lname[c->label], vdone ? "complete" : "refused");
         if (c->label == L_GOOD) {
             if (!both) report(c, "good-credentials-refused", "handshake with a correct chain and key did not complete (verifier alert sent %d, callback calls %d last alert %d)", V->ssl->err, cb_calls, cb_last);
@@ -155,13 +156,15 @@ int main(int argc, char **argv)
 {
     vf_init(argc, argv); mx_global_init();
     /* key pool before fork()ing so that all children share it */
-    for (int t = 0; t < 3; t++) for (int i = 0; i < 5; i++) if (!cg_key_get(t == 0 ? CG_K_RSA2048 : t == 1 ? CG_K_P256 : CG_K_ED25519, i)) { fprintf(stderr, "HARNESS: keygen failed\n"); return 2; }
+    for (int t = 0; t < 3; t++) for (int i = 0; i < 6; i++) if (!cg_key_get(t == 0 ? CG_K_RSA2048 : t == 1 ? CG_K_P256 : CG_K_ED25519, i)) { fprintf(stderr, "HARNESS: keygen failed\n"); return 2; }
     long idx = 0;
-    for (int si = 0; si < NSCN; si++) for (int l = 0; l < L_N; l++) for (int cb = 0; cb < 3; cb++) {
+    for (int si = 0; si < NSCN; si++) for (int l = 0; l < L_N; l++) for (int cb = 0; cb < 3; cb++) for (int via = 0; via < 2; via++) {
         if (scns[si].verifierIsServer && (l == L_WRONG_NAME || cb == CB_NONE)) continue;   /* a server asks for a client certificate by registering a callback */
+        /* chain shape: the leaf directly under the anchor, or under an intermediate CA that the peer sends along (the defect, if any, sits in a non-last certificate on the wire) */
+        if (via && (l == L_ISSUER_NOT_CA || l == L_EXPIRED_INT || l == L_ANCHOR_PATHLEN || l == L_INT_PATHLEN || l == L_SELF_SIGNED || l == L_NO_TRUST)) continue;
         if (!vf_mine(idx++)) continue;
-        case_t c = { &scns[si], l, cb };
-        snprintf(cur_desc, sizeof cur_desc, "scn=%d(%s/%s) label=%s cb=%s", si, mx_vername[scns[si].ver], scns[si].name, lname[l], cbname[cb]);
+        case_t c = { &scns[si], l, cb, via };
+        snprintf(cur_desc, sizeof cur_desc, "scn=%d(%s/%s) label=%s cb=%s via=%d", si, mx_vername[scns[si].ver], scns[si].name, lname[l], cbname[cb], via);
         if (vf_case && strcmp(vf_case, cur_desc)) continue;
         if (idx % 97 == 0) vf_sample("%s", cur_desc);
         mx_entropy_seed(vf_seed * 31 + idx);
